@@ -707,6 +707,10 @@ int main(int argc, char** argv) {
       if (++fam <= 1) // one recorded per family so that every family shows up among the (capped) violations
         rep.violation("process killed by a sanitizer report or signal (undefined behaviour, see stderr) while executing: " + k.text(), k.text());
       from = sh->cur + 1;
+      if (deaths >= 40) { // a change that breaks the arithmetic wholesale kills a child per case: the verdict is settled
+        rep.exhaustive = false;
+        break;
+      }
     }
     rep.evaluations += sh->evals;
     nontrivial += sh->nontrivial;
